@@ -4,6 +4,8 @@ from functools import partial
 
 __all__ = ['eq', 'in_']
 
+_containers = (list, tuple, dict, np.ndarray, pd.Series, pd.DataFrame, pd.Index)
+
 def _eq_attrs(x, y, attrs):
     for attr in attrs:
         if hasattr(x, attr) and not eq(getattr(x, attr), getattr(y, attr)):
@@ -88,6 +90,8 @@ def eq(x, y):
     elif isinstance(x, partial):
         return type(x) == type(y) and x.func == y.func and eq(x.keywords, y.keywords) and eq(x.args, y.args)
     else:
+        if isinstance(y, _containers) and np.ndim(x) == 0: ## a scalar is never equal to a container, x == y would broadcast it
+            return False
         try:
             res = x == y
             return np.all(res.__array__()) if hasattr(res, '__array__') else res
